@@ -9,7 +9,8 @@ from asyncio import futures
 
 
 class SimSocket:
-    def __init__(self, peer=("10.0.0.1", 6053), family=2) -> None:
+    def __init__(self, peer=("10.0.0.1", 6053), family=2, broken: bool = False) -> None:
+        self.broken = broken  # the peer reset the connection right after it was established
         self.closed = False
         self.close_calls = 0
         self.peer = peer
@@ -23,6 +24,8 @@ class SimSocket:
         self.opts.append(a)
 
     def getpeername(self):
+        if self.broken:
+            raise OSError(107, "Transport endpoint is not connected")
         return self.peer
 
     def getsockname(self):
